@@ -88,6 +88,7 @@ def topName : StackTop → String
   | .thrower => "T"
   | .rethrow i => "R" ++ toString i
   | .creation => "C"
+  | .genYield i => "Y" ++ toString i
   | _ => "o"
 
 def parseFrame : String → Option Frame
@@ -98,7 +99,7 @@ def parseFrame : String → Option Frame
   | "FO" => some .fo | "DY" => some .dy | "RP" => some .rp | "PR" => some .pr
   | "FCV" => some .fcv | "RFW" => some .rfw | "JI" => some .ji | "JG" => some .jg | "JGF" => some .jgf
   | "JA" => some .ja | "JAW" => some .jaw | "FOT" => some .fot
-  | "JIT" => some .jit | "JY" => some .jy | "JYF" => some .jyf | "FCS" => some .fcs | "TG" => some .tg
+  | "JIT" => some .jit | "JY" => some .jy | "JYF" => some .jyf | "FCS" => some .fcs | "TG" => some .tg | "JIU" => some .jiu | "JGT" => some .jgt
   | _ => none
 
 def parseChain (s : String) : Option (List Frame) :=
